@@ -255,7 +255,7 @@ Step == /\ l <= Len(Evs)
 
 (* ---------------- final state ------------------------------------------------------------- *)
 \* a milestone the user pinned outside the project window is reported where the user put it
-UserPinnedMs(t) == T(t).effort = 0 /\ (T(t).pin >= 0 \/ T(t).pinEnd >= 0)
+UserPinnedMs(t) == T(t).effort = 0 /\ (T(t).pin # -1 \/ T(t).pinEnd # -1)       \* -1 = none; a pin before the project start is negative
 Conts == {c \in 1..NT : ~T(c).leaf /\ Kids(c) # {}}
 FinalBad(F) ==
      \* C10 on the state read through the API
